@@ -300,6 +300,14 @@ type cluster struct {
 	keep     []any // operators of earlier generations stay referenced until the case ends (no in-process table clean-up)
 	adapters map[string]*opAdapter
 	amu      sync.Mutex
+	js       *jobSide // c14: the real snapshot store of the running job
+}
+
+// errStop ends a history early (a savepoint could not be written or restored: that outcome is in the observations)
+var errStop = fmt.Errorf("history ends here")
+
+func (c *cluster) sendBarrier(i int, id uint64) error {
+	return c.send(i, &workerpb.Event{Event: &workerpb.Event_CheckpointBarrier{CheckpointBarrier: &workerpb.CheckpointBarrier{CheckpointId: id}}})
 }
 
 func (c *cluster) workDir() string { return filepath.Join(c.dir, "work") }
@@ -403,7 +411,7 @@ func (c *cluster) checkpoint() ([]*snapshotpb.OperatorCheckpoint, error) {
 	c.ckptID++
 	c.job.take()
 	for i := range c.ops {
-		if err := c.send(i, &workerpb.Event{Event: &workerpb.Event_CheckpointBarrier{CheckpointBarrier: &workerpb.CheckpointBarrier{CheckpointId: c.ckptID}}}); err != nil {
+		if err := c.sendBarrier(i, c.ckptID); err != nil {
 			return nil, fmt.Errorf("barrier to operator %d: %v", i, err)
 		}
 	}
@@ -591,7 +599,11 @@ func execHistory(mode string, c *hx.Case) (*hx.Result, error) {
 	var terms []string
 	var jobs_ []any
 	nontrivial := false
+	stopped := false
 	for _, raw := range c.Ops {
+		if stopped {
+			break
+		}
 		var o op
 		if err := json.Unmarshal(raw, &o); err != nil {
 			return nil, err
@@ -648,6 +660,11 @@ func execHistory(mode string, c *hx.Case) (*hx.Result, error) {
 				term, j, nt, err = cl.savepointRestart(o, tags, tableIDs, nkeys, &terms)
 			} else {
 				term, j, nt, err = cl.rescale(o, tags, tableIDs, nkeys)
+			}
+			if err == errStop {
+				jobs_ = append(jobs_, j)
+				stopped = true
+				break
 			}
 			if err != nil {
 				return nil, err
